@@ -11,6 +11,13 @@ TI = "sender::filedesc::TransferInfo"
 SESSION = "sender::sendersession::SenderSession"
 
 
+def _locals_of(op):
+    """locals read by an operand (base local of its place and index locals)"""
+    if op is None or op.place is None:
+        return []
+    return [op.place[0]] + [e[1] for e in op.place[1] if isinstance(e, tuple) and e and e[0] == "i"]
+
+
 def never_early_table(ctx, r1):
     """decision table of should_transfer_now (shared with C12.R6)"""
     prog = ctx.prog
@@ -73,6 +80,35 @@ def run(ctx):
     sl = Slicer(f.body)
     want = {"DelayBetweenTransfers": "last_transfer_end_time", "IntervalBetweenStartTimes": "last_transfer_start_time"}
     found = 0
+    # the elapsed time: now.duration_since(T); T's value is selected per carousel arm
+    dcalls = call_sites(f, lambda p, c: p.endswith("SystemTime::duration_since"))
+    now_name = f.body.names.get(4, "now")   # should_transfer_now(&self, priority, publish_mode, now)
+    feeding = set()   # locals in the backward data slice of T
+    for s in dcalls:
+        key = "should_transfer_now elapsed definition"
+        if show(polarity.strip(s.expr[2][0])) == now_name:
+            r1b.ok(key, show(s.expr, 100), s.loc)
+        else:
+            r1b.violation(key, "elapsed time is %s, expected now.duration_since(<time of the previous transfer>)" % show(s.expr, 100), s.loc)
+        work = [l for l in _locals_of(s.term.args[1])]
+        while work:
+            l = work.pop()
+            if l in feeding:
+                continue
+            feeding.add(l)
+            for (bb_, idx, kind) in f.body.defs().get(l, []):
+                if idx == "term":
+                    t_ = f.body.blocks[bb_].term
+                    for a_ in t_.args:
+                        work.extend(_locals_of(a_))
+                else:
+                    for o_ in f.body.blocks[bb_].stmts[idx].rv.ops:
+                        work.extend(_locals_of(o_))
+                    pl_ = f.body.blocks[bb_].stmts[idx].rv.place
+                    if pl_ is not None:
+                        work.append(pl_[0])
+    if not dcalls:
+        raise model.AnchorMissing("should_transfer_now: no SystemTime::duration_since call (elapsed time)")
     for blk in f.body.blocks:
         tt = blk.term
         if tt.k != "switch":
@@ -83,13 +119,16 @@ def run(ctx):
             if len(vs) != 1:
                 continue
             v = vs[0]
-            # blocks dominated by this edge
+            # blocks dominated by this edge: the values they contribute to T
             dom = [b.i for b in f.body.blocks if not b.cleanup and n in model.dom_chain(flow.idom(), ("b", b.i))]
             srcs = set()
             for bi in dom:
                 for st in f.body.blocks[bi].stmts:
-                    if st.k == "assign" and st.rv.k == "aggr" and st.rv.j.get("ak") == "tuple":
-                        srcs |= sl.x and set(z for z in leaves(sl.x.rvalue(st.rv, sl.x.depth)))
+                    if st.k == "assign" and st.lhs[0] in feeding:
+                        srcs |= set(z for z in leaves(sl.expand(sl.x.rvalue(st.rv, sl.x.depth))))
+                t_ = f.body.blocks[bi].term
+                if t_.k == "call" and t_.dest is not None and t_.dest[0] in feeding:
+                    srcs |= set(z for z in leaves(sl.expand(sl.x.call_expr(bi, t_, sl.x.depth))))
             found += 1
             other = [w for kk, w in want.items() if kk != v][0]
             key = "should_transfer_now %s reference time" % v
@@ -98,17 +137,7 @@ def run(ctx):
             else:
                 r1b.violation(key, "under %s the elapsed time is measured from {%s}, expected %s" % (
                     v, ", ".join(sorted(z for z in srcs if "last_transfer" in z)) or "?", want[v]), loc(tt.sp))
-    r1b.floor(2, "carousel arms")
-    # elapsed is now - T
-    for name, defs in sl.var_defs().items():
-        if name == "last_transfer_interval":
-            for pj, d, _bb in defs:
-                cs = [c for c in walk(d) if c[0] == "call" and c[1].endswith("SystemTime::duration_since")]
-                key = "should_transfer_now elapsed definition"
-                if cs and show(polarity.strip(cs[0][2][0])) == "now" and "last_time" in show(cs[0][2][1]):
-                    r1b.ok(key, show(d, 100), loc(f.sp))
-                else:
-                    r1b.violation(key, "elapsed time is %s, expected now.duration_since(last_time)" % show(d, 100), loc(f.sp))
+    r1b.floor(3, "carousel arms + elapsed definition")
 
     # ---- R1c pacing gate ------------------------------------------------------------------
     r1c = ctx.rule("C14.R1c", "in SenderSession::run, encoder.read is reached only when the object has no pacing timestamp or "
